@@ -40,8 +40,9 @@ import (
 )
 
 var (
-	vfMqResFilters = []string{"a", "a/b", "a/+", "a/#", "+/b", "#", "b"}
-	vfMqResTopics  = []string{"a", "a/b", "b", "b/b", "a/b/c"}
+	vfMqResBadFilters = []string{"a+", "#/a", "a/#/b", "+b", "a/b#"}
+	vfMqResFilters    = []string{"a", "a/b", "a/+", "a/#", "+/b", "#", "b"}
+	vfMqResTopics     = []string{"a", "a/b", "b", "b/b", "a/b/c"}
 )
 
 // vfMqResIDFamilies: the client ids of a script (the first nIDs of one family). Client ids are
@@ -107,6 +108,11 @@ type vfMqResID struct {
 	dropped map[string]bool
 	// the current persistent session saw an UNSUBSCRIBE list mixing held and not-held filters
 	mixedUnsub bool
+	// the current persistent session saw an acknowledged UNSUBSCRIBE list with a malformed filter
+	// next to filters it held
+	badUnsub bool
+	// held filters of an UNSUBSCRIBE the broker did not acknowledge (refused: still live)
+	refused map[string]bool
 }
 
 type vfMqResRun struct {
@@ -265,6 +271,10 @@ func (r *vfMqResRun) connect(d *vfMqResID, clean bool) {
 		if len(d.dropped) > 0 {
 			r.vf.Class("session-resumed-after-unsubscribe")
 		}
+		if d.badUnsub {
+			r.nt = true
+			r.vf.Class("nontrivial:persistent-session-resumed-after-unsubscribe-list-with-malformed-and-held-filters")
+		}
 		if d.mixedUnsub {
 			r.nt = true
 			r.vf.Class("nontrivial:persistent-session-resumed-after-unsubscribe-list-mixing-held-and-not-held-filters")
@@ -285,7 +295,7 @@ func (r *vfMqResRun) connect(d *vfMqResID, clean bool) {
 			r.vf.Class("connect-discards-subscriptions")
 		}
 		d.sess = &vfMqResSess{clean: clean, topics: map[string]byte{}}
-		d.dropped, d.mixedUnsub = nil, false
+		d.dropped, d.mixedUnsub, d.badUnsub, d.refused = nil, false, false, nil
 	}
 }
 
@@ -359,6 +369,7 @@ func (r *vfMqResRun) subscribe(d *vfMqResID) {
 	for i, f := range fs {
 		d.sess.topics[f] = qs[i]
 		delete(d.dropped, f)
+		delete(d.refused, f)
 	}
 }
 
@@ -415,8 +426,35 @@ func (r *vfMqResRun) unsubscribe(d *vfMqResID) {
 			fs = append(fs, rapid.SampledFrom(vfMqResFilters).Draw(r.rt, "filter"))
 		}
 	}
+	// every other list also carries one malformed filter (wildcard misplaced) at a drawn position:
+	// first, last, or between two others, so that held filters stand before and after it
+	badAt := -1
+	if rapid.Bool().Draw(r.rt, "unsubWithMalformedFilter") {
+		badAt = rapid.IntRange(0, len(fs)).Draw(r.rt, "malformedPos")
+		bad := rapid.SampledFrom(vfMqResBadFilters).Draw(r.rt, "malformedFilter")
+		fs = append(fs[:badAt:badAt], append([]string{bad}, fs[badAt:]...)...)
+	}
 	r.log("%s: unsub(%s)", d.cid, vfC16FmtSubsShared(fs, nil))
 	r.vf.Class("step:unsubscribe")
+	heldBeforeBad, heldAfterBad := false, false
+	if badAt >= 0 {
+		for i, f := range fs {
+			if _, ok := d.sess.topics[f]; ok {
+				heldBeforeBad = heldBeforeBad || i < badAt
+				heldAfterBad = heldAfterBad || i > badAt
+			}
+		}
+		switch {
+		case heldBeforeBad && heldAfterBad:
+			r.vf.Class("unsubscribe-list:malformed-filter-between-held-filters")
+		case heldBeforeBad:
+			r.vf.Class("unsubscribe-list:malformed-filter-after-a-held-one")
+		case heldAfterBad:
+			r.vf.Class("unsubscribe-list:malformed-filter-before-a-held-one")
+		default:
+			r.vf.Class("unsubscribe-list:malformed-filter-without-held-filter")
+		}
+	}
 	// shape of the list: where the not-held filters stand relative to the held ones
 	firstHeld, lastHeld, firstNot, lastNot := -1, -1, -1, -1
 	for i, f := range fs {
@@ -447,11 +485,40 @@ func (r *vfMqResRun) unsubscribe(d *vfMqResID) {
 			r.vf.Class("unsubscribe-list:held-filter-before-a-not-held-one")
 		}
 	}
-	if err := d.live.Unsubscribe(fs); err != nil {
-		r.liveGone(d, "unsubscribe", err)
-		return
+	if badAt < 0 {
+		if err := d.live.Unsubscribe(fs); err != nil {
+			r.liveGone(d, "unsubscribe", err)
+			return
+		}
+	} else {
+		// A list with a malformed filter: the broker acknowledges it and forgets every listed filter
+		// (DESIGN 8.4 reading). Should it not acknowledge (PINGRESP of a following PINGREQ arrives,
+		// UNSUBACK did not: packets are handled in order), the UNSUBSCRIBE was refused as a whole and
+		// everything the client held is still live. Either way the routing must follow.
+		acked, err := vfMqResUnsubscribeMaybe(d.live, fs)
+		if err != nil {
+			r.liveGone(d, "unsubscribe", err)
+			return
+		}
+		if !acked {
+			r.vf.Class("ambiguous-unsubscribe-with-malformed-filter-not-acknowledged")
+			for _, f := range fs {
+				if _, ok := d.sess.topics[f]; ok {
+					if d.refused == nil {
+						d.refused = map[string]bool{}
+					}
+					d.refused[f] = true
+				}
+			}
+			return
+		}
+		r.vf.Class("unsubscribe-with-malformed-filter-acknowledged")
+		if (heldBeforeBad || heldAfterBad) && !d.sess.clean {
+			d.badUnsub = true
+		}
 	}
 	for _, f := range fs {
+		delete(d.refused, f)
 		if _, ok := d.sess.topics[f]; ok {
 			delete(d.sess.topics, f)
 			if d.dropped == nil {
@@ -463,6 +530,21 @@ func (r *vfMqResRun) unsubscribe(d *vfMqResID) {
 	if mixed && !d.sess.clean {
 		d.mixedUnsub = true
 	}
+}
+
+// vfMqResUnsubscribeMaybe sends an UNSUBSCRIBE followed by a PINGREQ and reports whether the
+// UNSUBACK had arrived when the PINGRESP did.
+func vfMqResUnsubscribeMaybe(c *vfMqClient, filters []string) (acked bool, err error) {
+	id := c.newID()
+	if err := c.write(vfMqUnsubscribePacket(id, filters)); err != nil {
+		return false, err
+	}
+	if _, err := c.Ping(); err != nil {
+		return false, err
+	}
+	c.mu.Lock()
+	defer c.mu.Unlock()
+	return c.countLocked(packets.Unsuback, int(id)) > 0, nil
 }
 
 // endLive: the client ends its connection (DISCONNECT / half-close), or a backend pipeline asks
@@ -643,7 +725,13 @@ func (r *vfMqResRun) check() {
 					return
 				}
 			case !got && want[d.cid]:
-				if r.violation("live-subscription-not-routed", "findSubscribers(%s) lacks %s, reference %v", t, d.cid, vfMqResKeys(want)) {
+				lkey := "live-subscription-not-routed"
+				for f := range d.refused {
+					if vfMqMatch(f, t) {
+						lkey = "unacknowledged-unsubscribe-removed-filter-from-routing"
+					}
+				}
+				if r.violation(lkey, "findSubscribers(%s) lacks %s, reference %v", t, d.cid, vfMqResKeys(want)) {
 					return
 				}
 			case got:
